@@ -503,8 +503,35 @@ fn sem_mutviews() -> Option<String> {
     { let g: &mut GenericArray<u32, U0> = GenericArray::from_mut_slice(&mut e[..]); if g.as_ptr() as usize != eb { return Some("from_mut_slice (empty): not the source address".into()); } }
     None
 }
+/// const_transmute between types of different size must panic (its size check backs every by-value reinterpretation: from_array / into_array,
+/// flatten / unflatten, arr!), and must return the same bytes for equal sizes
+fn sem_transmute() -> Option<String> {
+    fn returns<A: Copy + 'static, B: 'static>(a: A) -> bool {
+        catch_unwind(AssertUnwindSafe(|| { let b: B = unsafe { generic_array::const_transmute::<A, B>(a) }; std::mem::forget(b); })).is_ok()
+    }
+    if returns::<[u8; 4], [u8; 2]>([1, 2, 3, 4]) { return Some("const_transmute::<[u8; 4], [u8; 2]> returns (source larger than target)".into()); }
+    if returns::<[u8; 2], [u8; 4]>([1, 2]) { return Some("const_transmute::<[u8; 2], [u8; 4]> returns (source smaller than target)".into()); }
+    if returns::<[u8; 7], [[u8; 2]; 3]>([0; 7]) { return Some("const_transmute::<[u8; 7], [[u8; 2]; 3]> returns (7 bytes as 6)".into()); }
+    if returns::<u8, ()>(1) { return Some("const_transmute::<u8, ()> returns".into()); }
+    if returns::<(), u8>(()) { return Some("const_transmute::<(), u8> returns".into()); }
+    if !returns::<[u8; 4], u32>([1, 2, 3, 4]) { return Some("const_transmute between types of equal size panics".into()); }
+    let w: u32 = unsafe { generic_array::const_transmute::<[u8; 4], u32>([1, 2, 3, 4]) };
+    if w != u32::from_ne_bytes([1, 2, 3, 4]) { return Some("const_transmute::<[u8; 4], u32> changes the bytes".into()); }
+    // the owned unflatten of a length that is not a multiple of the chunk length (Quot rounds down): must not return
+    let seven: GenericArray<u8, U7> = GenericArray::generate(|i| i as u8);
+    let r = catch_unwind(AssertUnwindSafe(|| { let u: GenericArray<GenericArray<u8, U2>, U3> = generic_array::sequence::Unflatten::<u8, U7, U2>::unflatten(seven); u.len() }));
+    if r.is_ok() { return Some("unflatten of 7 elements into 3 chunks of 2 returns (one element silently lost)".into()); }
+    None
+}
 fn semantic(sc: &str) -> Option<String> {
     if sc.starts_with("hex") { return sem_hex(); }
+    if sc.starts_with("const_transmute") {
+        let quiet = std::panic::take_hook();
+        std::panic::set_hook(Box::new(|_| {}));
+        let r = sem_transmute();
+        std::panic::set_hook(quiet);
+        return r;
+    }
     if sc.starts_with("mutprov") {
         let quiet = std::panic::take_hook();
         std::panic::set_hook(Box::new(|_| {}));
